@@ -46,6 +46,12 @@ def run_case(ctx, rep, case, base, model_ok):
         t0.append_records(tablekit.rows(2, tag="init"))
     if "delcur" in case["writers"]:
         t0.append_records(tablekit.rows(1, start=50, tag="second"))
+    if any(w in ("delete-partial", "delete+append") for w in case["writers"]):
+        with t0.new_transaction() as tx0:       # one manifest holding three data files
+            tx0.append_data(tablekit.rows(1, start=60, tag="m1_"))
+            tx0.append_data(tablekit.rows(1, start=61, tag="m2_"))
+            tx0.append_data(tablekit.rows(1, start=62, tag="m3_"))
+            tx0.commit()
     store = reader.DirStore(path)
     chooser = case["chooser"](rng) if case.get("chooser") else sched.random_chooser(rng, rng.choice([0.0, 0.2, 0.5]))
     S = sched.Sched(chooser, watchdog_s=40)
@@ -60,6 +66,13 @@ def run_case(ctx, rep, case, base, model_ok):
         def wfn(h=h, wk=wk, a=a):
             if wk == "append":
                 return h.append_records(tablekit.rows(1, start=100 * a, tag=f"w{a}_"))
+            if wk in ("delete-partial", "delete+append"):
+                paths = tablekit.data_paths(h)
+                with h.new_transaction() as tx:
+                    tx.delete_files(["/" + paths[-1]])       # one file of the three-file manifest: the manifest is rewritten
+                    if wk == "delete+append":
+                        tx.append_data(tablekit.rows(1, start=100 * a, tag=f"w{a}_"))
+                    return tx.commit()
             if wk == "multi":
                 with h.new_transaction() as tx:
                     tx.append_data(tablekit.rows(1, start=100 * a, tag=f"w{a}a_"))
@@ -177,6 +190,16 @@ def run_case(ctx, rep, case, base, model_ok):
         versions.append({"has": v["cur"] not in (None, -1), "rows": v["rows"]})
     rep.evaluations += 1
     rep.distribution[f"w={len(case['writers'])} r={len(case['readers'])}"] += 1
+    # ---- one transaction crosses the commit point ONCE: a writer's single commit call moves the pointer at most one time
+    flips_by = {}
+    for (a_, kind_, d_) in S.events:
+        if kind_ == "storage" and d_["cls"] == "hint" and d_["op"] in ("write_file", "write_file_cas") and "result" in d_:
+            flips_by[a_] = flips_by.get(a_, 0) + 1
+    for a_, n_ in flips_by.items():
+        if n_ > 1:
+            rep.violate("C02:transaction-published-in-more-than-one-step",
+                        f"writer {a_} ({case['writers'][a_ - 1]}) made one commit call and moved the pointer {n_} times: readers in between see a state "
+                        f"that is neither before nor after the transaction", case_rec)
     # ---- each read: pointer reads → timeline positions
     def pos_of(event_index):
         return len([1 for (fi, _n) in flips if fi < event_index])
@@ -296,7 +319,7 @@ def directed_sweep(ctx, rep, base, model_ok, next_id):
     stride = 1 if (ctx.thorough or ctx.intensify) else 2
     # same handle: read, a whole commit of each kind (incl. rolling the table back), read again
     for api in APIS:
-        for wk in ("append", "delete", "multi", "delcur", "failed", "rollback", "dirfsync:hint"):
+        for wk in ("append", "delete", "multi", "delcur", "failed", "rollback", "dirfsync:hint", "delete-partial", "delete+append"):
             c = {"id": next_id, "start_empty": False, "writers": [wk], "readers": [[api, api]], "chooser": _between_reads}
             next_id += 1
             try:
@@ -305,7 +328,7 @@ def directed_sweep(ctx, rep, base, model_ok, next_id):
             except sched.Stuck as e:
                 rep.notes.append(f"between-reads case {api}/{wk} stuck: {e}")
     # the other way round: a whole read placed after each gated operation of a commit (incl. commits that fail half-way)
-    for wk in ("append", "delete", "failed", "dirfsync:hint", "dirfsync:meta"):
+    for wk in ("append", "delete", "failed", "dirfsync:hint", "dirfsync:meta", "delete-partial", "delete+append"):
         for api in (APIS if (ctx.thorough or ctx.intensify) else ["scan", "row_count", "iter_records"]):
             k = 0
             while True:
@@ -347,7 +370,7 @@ def cases(ctx):
     out.append({"start_empty": False, "writers": ["multi"], "readers": [["scan", "scan_batches", "row_count"]]})
     for _ in range(ctx.budget(40, 1500)):
         out.append({"start_empty": rng.random() < 0.4,
-                    "writers": [rng.choice(["append", "append", "multi", "delete", "rollback", "failed", "delcur"]) for _ in range(rng.randint(1, 3))],
+                    "writers": [rng.choice(["append", "append", "multi", "delete", "rollback", "failed", "delcur", "delete-partial", "delete+append"]) for _ in range(rng.randint(1, 3))],
                     "readers": [[rng.choice(APIS) for _ in range(rng.randint(1, 3))] for _ in range(rng.randint(1, 2))]})
     for i, c in enumerate(out):
         c["id"] = i
